@@ -16,8 +16,14 @@
    meaning: the loop bodies of the generated text are compared with the model's
    loop step (ExpandProofs.gloop) case by case ([split_tests; same_step]: the
    limit tests `limit <= 0` / `limit == 0` against the model's [exhausted], the
-   decrement against [lim_sub]); they survive renamings, comments, reformatting
-   and rewrites that leave every loop step arithmetically the same. *)
+   decrement against [lim_sub]).  They are written to survive rewrites of the
+   source that leave every loop step the same: renamings, comments, reformatting,
+   hoisted locals, `x = x + 1` for `x += 1`, another order of the statements of a
+   loop body (the shape and order of the loop-carried state tuple is read off the
+   goal: [apply_gloop]), the mask loop with a manual counter or with enumerate and
+   either polarity of its test ([for_from_mask0] / [for_from_mask_enum0],
+   [mask_body]), any arithmetically equal form of the limit tests and of the test
+   `len(pt) == 1` ([split_len_test]), `if limit:` / `if not limit:`. *)
 From Coq Require Import List Arith ZArith NArith Bool Lia.
 From Pcfg Require Import KernelRt Expand ExpandProofs ExpandRt.
 From PcfgGen Require Import Expand_gen.
@@ -234,7 +240,78 @@ Lemma for_from_mask0 {R : Type} (tail : str) (raise : R)
   | Some ps => k (ps, Z.of_nat (length mask))
   end.
 Proof. intros Hb mask j k. exact (for_from_mask tail raise body Hb mask j [] 0 k). Qed.
+
+(* the same loop written `for pos, c in enumerate(mask)`: the position is the loop's own
+   counter and only new_end is carried *)
+Lemma for_from_mask_enum {R : Type} (tail : str) (raise : R)
+      (body : nat -> pstr -> list pstr -> ctl R (list pstr)) :
+  (forall j m ne, body j [m] ne =
+     match nth_error tail j with
+     | None => Return raise
+     | Some c => Continue (ne ++ [if N.eqb m chL then [c] else upper_c c])
+     end) ->
+  forall mask j ne k,
+  for_from j (chars mask) body ne k =
+  match mask_pieces mask (skipn j tail) with
+  | None => raise
+  | Some ps => k (ne ++ ps)
+  end.
+Proof.
+  intros Hb. induction mask as [|m mr IH]; intros j ne k.
+  - cbn. now rewrite app_nil_r.
+  - cbn [chars map for_from mask_pieces]. rewrite Hb, (skipn_nth_error tail j).
+    destruct (nth_error tail j) as [c|]; [|reflexivity].
+    fold (chars mr). rewrite IH. destruct (mask_pieces mr (skipn (S j) tail)) as [ps|]; [|reflexivity].
+    rewrite <- app_assoc. reflexivity.
+Qed.
+
+Lemma for_from_mask_enum0 {R : Type} (tail : str) (raise : R)
+      (body : nat -> pstr -> list pstr -> ctl R (list pstr)) :
+  (forall j m ne, body j [m] ne =
+     match nth_error tail j with
+     | None => Return raise
+     | Some c => Continue (ne ++ [if N.eqb m chL then [c] else upper_c c])
+     end) ->
+  forall mask k,
+  for_from 0 (chars mask) body [] k =
+  match mask_pieces mask tail with
+  | None => raise
+  | Some ps => k ps
+  end.
+Proof. intros Hb mask k. exact (for_from_mask_enum tail raise body Hb mask 0 [] k). Qed.
 End MaskLoop.
+
+(* one step of the mask loop in the generated text is the model's step, whichever way the
+   test on the mask character is written (== 'L' / != 'L' with the branches swapped) *)
+Ltac mask_body :=
+  intros; cbv beta iota zeta; rewrite str_eqb_char, str_index_nat; unfold chL;
+  match goal with |- context [nth_error ?t ?i] => destruct (nth_error t i) end;
+  match goal with |- context [N.eqb ?c 76] => destruct (N.eqb c 76) end;
+  cbn [negb bindx]; unfold append, str_upper; cbn [flat_map]; rewrite ?app_nil_r;
+  first [reflexivity | do 2 f_equal; lia].
+
+(* ---- the loop-carried state of a generated loop ----
+   The translator carries the variables a loop body assigns as a tuple, in the order of
+   their first assignment in the body: which variables there are, and in which order, depends
+   on how the source is written.  The proofs only need to know where the printed lines, the
+   count and the limit sit in that tuple; any other component is a variable the model has no
+   counterpart for (the manual `index` counter of the mask loop).  [apply_gloop junk l] reads
+   this off the goal: it abstracts the initial state of the loop over the initial values
+   [] / 0 / zlim l of the three and over [junk] (the value an extra variable has at loop
+   entry; [no_junk] if there is none), and applies for_from_gloop with the relation "the
+   state is that tuple, for some value of the extra variable". *)
+Definition no_junk : Z := 0%Z.
+
+Ltac apply_gloop junk l :=
+  lazymatch goal with
+  | |- for_from _ _ _ ?s0 _ = _ =>
+      let t := eval pattern junk, (@nil pstr), 0%Z, (zlim l) in s0 in
+      lazymatch t with
+      | ?mk _ _ _ _ =>
+          apply for_from_gloop with
+            (rel := fun st acc num l' => exists j : Z, st = mk j acc (Z.of_nat num) (zlim l'))
+      end
+  end.
 
 (* rewrite with an equation about [zlim l] where the goal has the Python value *)
 Ltac rewrite_lim H :=
@@ -250,12 +327,24 @@ Ltac split_tests :=
   | |- context [Z.ltb ?a ?b] => destruct (Z.ltb_spec a b)
   | |- context [Nat.leb ?a ?b] => destruct (Nat.leb_spec a b)
   end.
+(* the test that tells the last slot from the others (`len(pt) == 1`, `len(pt) > 1`,
+   `2 > len(pt)`, ...) once pt is known to have one / at least two elements *)
+Ltac split_len_test :=
+  unfold len; cbn [length];
+  repeat match goal with
+  | |- context [Z.eqb (Z.of_nat ?n) ?b] => destruct (Z.eqb_spec (Z.of_nat n) b) as [?Hlen|?Hlen]; try (exfalso; lia)
+  | |- context [Z.eqb ?b (Z.of_nat ?n)] => destruct (Z.eqb_spec b (Z.of_nat n)) as [?Hlen|?Hlen]; try (exfalso; lia)
+  | |- context [Z.leb (Z.of_nat ?n) ?b] => destruct (Z.leb_spec (Z.of_nat n) b) as [?Hlen|?Hlen]; try (exfalso; lia)
+  | |- context [Z.leb ?b (Z.of_nat ?n)] => destruct (Z.leb_spec b (Z.of_nat n)) as [?Hlen|?Hlen]; try (exfalso; lia)
+  | |- context [Z.ltb (Z.of_nat ?n) ?b] => destruct (Z.ltb_spec (Z.of_nat n) b) as [?Hlen|?Hlen]; try (exfalso; lia)
+  | |- context [Z.ltb ?b (Z.of_nat ?n)] => destruct (Z.ltb_spec b (Z.of_nat n)) as [?Hlen|?Hlen]; try (exfalso; lia)
+  end; cbn [negb]; cbv iota.
 Ltac same_step :=
   first [ reflexivity
         | exfalso; lia
         | solve [repeat f_equal; lia]
-        | solve [eexists; split; [reflexivity|]; repeat f_equal; lia]
-        | solve [eexists; split; [reflexivity|]; eexists; repeat f_equal; lia] ].
+        | solve [eexists; split; [reflexivity|]; exists no_junk; cbv beta; repeat f_equal; lia]
+        | solve [eexists; split; [reflexivity|]; eexists; cbv beta; repeat f_equal; lia] ].
 
 (* ------------------------------------------------------------------ *)
 (* generated = model                                                   *)
@@ -277,18 +366,17 @@ Theorem omen_generate_guesses_eq (gs : list str) (l : lim) :
   Ok (lim_take l gs, Z.of_nat (length (lim_take l gs))).
 Proof.
   unfold py_omen_generate_guesses, for_each. cbv zeta.
-  rewrite for_from_gloop with
-    (rel := fun st acc num l => st = (acc, Z.of_nat num, zlim l))
-    (f := fun g _ => Some ([g], 1)) (l := l) (acc := []) (num := 0).
+  transitivity (lift (gloop (fun g _ => Some ([g], 1)) gs l [] 0)).
+  - apply_gloop no_junk l.
+    + intros x _ i st acc num l0 [j ->]. cbv beta iota.
+      unfold append. destruct l0 as [[|n]|];
+        cbn [zlim option_map if_truthy exhausted lim_sub active]; split_tests; same_step.
+    + intros st acc num l0 [j ->]. reflexivity.
+    + exists no_junk. reflexivity.
   - rewrite (gloop_behaves _ (fun g => [g])).
     + cbn [app Nat.add]. replace (flat_map (fun g => [g]) gs) with gs; [reflexivity|].
       induction gs as [|g gs IH]; [reflexivity|]. cbn. now rewrite <- IH.
     + apply Forall_forall. intros g _ l'. destruct l' as [[|n]|]; cbn [lim_take firstn]; rewrite ?firstn_nil; reflexivity.
-  - intros x _ i st acc num l0 ->. cbv beta iota.
-    unfold append. destruct l0 as [[|n]|];
-      cbn [zlim option_map if_truthy exhausted lim_sub active]; split_tests; same_step.
-  - intros st acc num l0 ->. reflexivity.
-  - reflexivity.
 Qed.
 
 (* ---- _recursive_guesses ---- *)
@@ -320,26 +408,26 @@ Proof.
     { (* capitalisation masks *)
       destruct vals as [|m0 ms]; [reflexivity|].
       rewrite seq_index_cons0. cbn [bindx].
-      rewrite slice_to_neg_len, slice_from_neg_len, len_cons_eq_1.
+      rewrite slice_to_neg_len, slice_from_neg_len.
       unfold for_each.
-      apply for_from_gloop with
-        (rel := fun st acc num l => exists j : Z, st = (acc, j, Z.of_nat num, zlim l)).
+      apply_gloop idx l.
       - intros m _ i st acc num l0 [j ->]. cbv beta iota.
-        rewrite (for_from_mask0 upper_c (py_tail cur (length m0)) (Return (Exc LookupError))).
-        2:{ intros j' c ne i'. cbv beta iota. rewrite str_eqb_char, str_index_nat.
-            unfold chL. destruct (nth_error (py_tail cur (length m0)) i') as [d|];
-              destruct (N.eqb c 76); cbn [bindx]; unfold append, str_upper; cbn [flat_map];
-              rewrite ?app_nil_r; try reflexivity;
-              (do 2 f_equal; lia). }
+        (* the mask loop: manual counter, or enumerate *)
+        first [ rewrite (for_from_mask0 upper_c (py_tail cur (length m0)) (Return (Exc LookupError)))
+                  by mask_body
+              | unfold for_enum;
+                rewrite (for_from_mask_enum0 upper_c (py_tail cur (length m0)) (Return (Exc LookupError)))
+                  by mask_body ].
         rewrite mask_apply_pieces.
         destruct (mask_pieces upper_c m (py_tail cur (length m0))) as [ps|]; cbn [option_map];
           [|reflexivity].
         rewrite str_join_nil. cbn [app concat].
         destruct ptr as [|p ptr'].
-        + inversion Hrest; subst rest. cbn [cont]. unfold append.
+        + split_len_test. inversion Hrest; subst rest. cbn [cont]. unfold append.
           destruct l0 as [[|n]|];
             cbn [zlim option_map if_truthy exhausted lim_sub active]; split_tests; same_step.
-        + assert (Hne : exists s' rest', rest = s' :: rest').
+        + split_len_test.
+          assert (Hne : exists s' rest', rest = s' :: rest').
           { cbn [resolve] in Hrest. destruct (resolve_node gv p); [|discriminate].
             destruct (resolve gv ptr'); [|discriminate]. inversion Hrest. eauto. }
           destruct Hne as [s' [rest' ->]]. cbn [cont].
@@ -352,15 +440,15 @@ Proof.
       - intros st acc num l0 [j ->]. reflexivity.
       - exists idx. reflexivity. }
     (* plain replacement *)
-    rewrite len_cons_eq_1. unfold for_each.
-    apply for_from_gloop with
-      (rel := fun st acc num l => st = (acc, Z.of_nat num, zlim l)).
-    { intros it _ i st acc num l0 ->. cbv beta iota.
+    unfold for_each.
+    apply_gloop no_junk l.
+    { intros it _ i st acc num l0 [j ->]. cbv beta iota.
       destruct ptr as [|p ptr'].
-      + inversion Hrest; subst rest. cbn [cont]. unfold append.
+      + split_len_test. inversion Hrest; subst rest. cbn [cont]. unfold append.
         destruct l0 as [[|n]|];
           cbn [zlim option_map if_truthy exhausted lim_sub active]; split_tests; same_step.
-      + assert (Hne : exists s' rest', rest = s' :: rest').
+      + split_len_test.
+          assert (Hne : exists s' rest', rest = s' :: rest').
         { cbn [resolve] in Hrest. destruct (resolve_node gv p); [|discriminate].
           destruct (resolve gv ptr'); [|discriminate]. inversion Hrest. eauto. }
         destruct Hne as [s' [rest' ->]]. cbn [cont].
@@ -371,8 +459,8 @@ Proof.
         destruct l0 as [[|n]|];
           cbn [zlim option_map if_truthy exhausted lim_sub active]; split_tests; same_step.
     }
-    { intros st acc num l0 ->. reflexivity. }
-    reflexivity.
+    { intros st acc num l0 [j ->]. reflexivity. }
+    exists no_junk. reflexivity.
 Qed.
 
 (* ---- create_guesses, non-honeyword path ---- *)
@@ -549,6 +637,7 @@ Ltac walk prim :=
   | |- ?Q (if_truthy ?l _ _) => destruct l as [?|]; cbn [if_truthy]; walk prim
   | |- ?Q (if ?c then _ else _) => destruct c; walk prim
   | |- ?Q (for_each _ _ _ _) => unfold for_each; walk prim
+  | |- ?Q (for_enum _ _ _ _) => unfold for_enum; walk prim
   | |- ?Q (for_from _ _ _ _ _) =>
       apply (for_from_inv Q); [intros ? ? ?; walk prim | intros ?; walk prim]
   | |- ?Q (match ?x with pair _ _ => _ end) => destruct x; walk prim
